@@ -144,6 +144,12 @@ def c04(tier, seed, work):
                             MaxVids=3 if tier == "thorough" else 2, Ghosts=False,
                             OpNames={"CreateBucket", "PutObject", "DeleteObject", "PutVersioning"}),
                ["mem"], "objects", emit=None, invariants=["EmitState"])
+    # three keys, one of them delete-marked between live ones (marker keys at page boundaries)
+    walk_stage(rep, work, "mem-dm-3k-walks", "MC_Store",
+               store_consts(Buckets={"bkt1"}, KeySetName="nest", CfgName="memenabled", Bodies={"x1"},
+                            MaxVids=5 if tier == "thorough" else 4, Ghosts=False,
+                            OpNames={"PutObject", "DeleteObject"}),
+               ["mem"], "objects", emit=None, invariants=["EmitState"])
     rep.assumptions += [
         "a walk follows the server's continuation: NextMarker (or the last key when absent) for V1, "
         "NextContinuationToken for V2; arbitrary start-after/marker values are single-page tours",
@@ -196,6 +202,12 @@ def c06(tier, seed, work):
                store_consts(Buckets={"bkt1"}, KeySetName="a", Bodies={"x1"}, OpNames=MP_OPS - {"ListParts", "ListUploads"},
                             MaxUploads=2, Ghosts=False),
                ["mem", "bolt", "multimem"], small=True, **st)
+    # three part numbers with a gap, lists that skip an uploaded part in the middle
+    tour_stage(rep, work, "mp-gaps", "MC_Store",
+               store_consts(Buckets={"bkt1"}, KeySetName="a", Bodies={"x1"}, PartNums={1, 2, 5}, PartBodies={"p1"},
+                            MaxUploads=1, MaxList=2, Ghosts=False,
+                            OpNames={"CreateBucket", "Initiate", "UploadPart", "Complete", "GetObject"}),
+               ["mem", "multimem"], small=True, **st)
     # versioned destination: completion returns a fresh version id
     tour_stage(rep, work, "mp-versioned", "MC_Store",
                store_consts(Buckets={"bkt1"}, KeySetName="a", Bodies={"x1"}, CfgName="mem", MaxVids=2, MaxUploads=1,
